@@ -85,6 +85,15 @@ def iter_fn_factory():
 BUILTINS = {"str": str, "repr": repr, "bool": bool, "type": type}
 
 
+def _never(*a, **k):
+    LOG.append(("called_a_value",))
+    return "called"
+
+
+import functools as _ft
+PLAIN_CALLABLES = [_ft.partial(_never, k=1), _ft.partial(_never), _never, (lambda: _never()), dict, _ft.partial(dict, a=1)]
+
+
 # model element: ("L", id) | ("I", fid, i) | ("T", fid, x) | ("V", value) | ("F", fid, child) | ("B", builtin name, child)
 def m_value(e):
     if e[0] == "V":
@@ -143,8 +152,22 @@ def setup(ctx):
         taps.tap(ctx, LazyList, op, NonReading(op))
 
 
-def make_base(ctx, rng):
+_SUB = []
+
+
+def lazy_class(rng):
+    """LazyList itself, or (a quarter of the time) a user's subclass of it (a frame list with a few helpers of its own)."""
     from menpo.base import LazyList
+    if not _SUB:
+        class FrameList(LazyList):
+            def first(self):
+                return self[0]
+        _SUB.append(FrameList)
+    return _SUB[0] if rng.random() < 0.25 else LazyList
+
+
+def make_base(ctx, rng):
+    LazyList = lazy_class(rng)
     n = int(rng.integers(0, 7))
     kind = int(rng.integers(0, 4))
     if kind == 0:
@@ -272,6 +295,9 @@ def w_program(ctx, rng, i):
             r, rm = a + b, am + bm
         elif op == "addlist":
             vals = [int(v) for v in rng.integers(0, 100, int(rng.integers(0, 4)))]
+            if rng.random() < 0.25:
+                # values that happen to be callable (callbacks kept in a list): an ordinary list hands them back, it does not call them
+                vals = [PLAIN_CALLABLES[j] for j in rng.integers(0, len(PLAIN_CALLABLES), int(rng.integers(1, 4)))]
             arg = list(vals) if rng.random() < 0.6 else tuple(vals)
             r, rm = a + arg, am + [("V", v) for v in vals]
             if isinstance(arg, list):
@@ -522,5 +548,76 @@ def w_video_pair(ctx, rng, i):
     ctx.count_case(("video_pair", "A+B" in both), nontrivial=True)
 
 
-WORKLOADS = [Workload("program", w_program, quick=60000, thorough=2000000), Workload("video", w_video, quick=1500, thorough=60000),
+def w_imported(ctx, rng, i):
+    """Lazy lists handed out by the glob importers (images, landmark files, pickles): every element can be read any number
+    of times, directly and through derived lists, and always is the asset of that file."""
+    import tempfile, shutil
+    import menpo.io as mio
+    import menpo.image as mi
+    import menpo.shape as ms
+    from menpo.base import LazyList
+    tmp = tempfile.mkdtemp(prefix="vf-c19i-")
+    try:
+        n = int(rng.integers(2, 6))
+        kind = ["images", "landmarks", "pickles"][i % 3]
+        ids = []
+        for k in range(n):
+            stem = "item_%02d" % k
+            if kind == "images":
+                px = np.full((1, 3, 4), 10 * (k + 1), dtype=np.uint8)
+                mio.export_image(mi.Image(px), os.path.join(tmp, stem + ".png"))
+            elif kind == "landmarks":
+                mio.export_landmark_file(ms.PointCloud(np.array([[float(k), 1.0], [2.0, 3.0]])), os.path.join(tmp, stem + ".pts"))
+            else:
+                mio.export_pickle({"k": k}, os.path.join(tmp, stem + ".pkl"))
+            ids.append(k)
+
+        def ident(o):
+            if kind == "images":
+                return int(round(float(np.asarray(o.pixels).ravel()[0]) * (1 if o.pixels.dtype == np.uint8 else 255) / 10.0)) - 1
+            if kind == "landmarks":
+                return int(round(float(list(o.values())[0].points[0, 0]) if hasattr(o, "values") else float(o.points[0, 0])))
+            return int(o["k"])
+        pat = os.path.join(tmp, "*" + {"images": ".png", "landmarks": ".pts", "pickles": ".pkl"}[kind])
+        if kind == "images":
+            ll = mio.import_images(pat, normalize=bool(rng.random() < 0.5))
+        elif kind == "landmarks":
+            ll = mio.import_landmark_files(pat)
+        else:
+            ll = mio.import_pickles(pat)
+        if not isinstance(ll, LazyList) or len(ll) != n:
+            ctx.fail("length_differs_from_list_model", cls="LazyList", mech="imported_" + kind, got=len(ll), expected=n)
+            return
+        model = list(ids)
+        progs = []
+        for step in range(int(rng.integers(2, 6))):
+            op = ["twice", "repeat", "fancy", "slice_plus", "reverse", "map"][rng.integers(0, 6)]
+            progs.append(op)
+            if op == "twice":
+                j = int(rng.integers(0, n))
+                got = [ident(ll[j]), ident(ll[j]), ident(ll[j - n])]
+                exp = [model[j]] * 3
+            elif op == "repeat":
+                got, exp = [ident(e) for e in ll.repeat(2)], [m_ for m_ in model for _ in range(2)]
+            elif op == "fancy":
+                idx = [int(v) for v in rng.integers(-n, n, 4)] + [0, 0]
+                got, exp = [ident(e) for e in ll[idx]], [model[j] for j in idx]
+            elif op == "slice_plus":
+                got, exp = [ident(e) for e in (ll[:1] + ll)], model[:1] + model
+            elif op == "reverse":
+                got, exp = [ident(e) for e in ll[::-1]], model[::-1]
+            else:
+                got, exp = [ident(e) for e in ll.map(lambda o: o)], list(model)
+            ctx.tap("imported_list_read", "calls"); ctx.tap("imported_list_read", "checked")
+            if got != exp:
+                ctx.fail("element_value_differs_from_list_model", cls="LazyList", mech="imported_%s:%s" % (kind, op), got=got[:8], expected=exp[:8], history=progs)
+                break
+    except Exception as e:
+        ctx.fail("element_read_raised", cls="LazyList", mech="imported:%s" % type(e).__name__, error=repr(e)[:200])
+    finally:
+        shutil.rmtree(tmp, ignore_errors=True)
+    ctx.count_case(("imported", kind, n), nontrivial=True)
+
+
+WORKLOADS = [Workload("imported_lists", w_imported, quick=240, thorough=6000), Workload("program", w_program, quick=60000, thorough=2000000), Workload("video", w_video, quick=1500, thorough=60000),
              Workload("video_pair", w_video_pair, quick=300, thorough=10000)]
